@@ -474,6 +474,13 @@ class IMMachine(FormatMachine):
             self._after_dump_attempt(s)
         if r == "ok":
             path = self.path(op)
+            # remember which pool handle sat where (same order as the expected cells: sorted by content)
+            aux = {}
+            for variant, arches in s.model["cells"].items():
+                for arch, iids in arches.items():
+                    if iids:
+                        aux.setdefault(variant, {})[arch] = sorted(iids, key=lambda i: cjson(norm_image(s.model["imgs"][i])))
+            self.durable[path]["aux"] = aux
             self._check_stored(s, path)
         return r
 
@@ -648,11 +655,20 @@ class IMMachine(FormatMachine):
         m = {"compose": dict(expected["compose"]), "version": CURRENT, "imgs": {}, "cells": {},
              "legacy_collision": "legacy-load" if collisions(expected["cells"]) else False, "version_origin": "loaded"}
         n = 0
+        d = self.durable.get(getattr(self, "_restart_path", None)) or {}
+        aux = d.get("aux") if s is not None else None
+        used = set()
         for variant in sorted(expected["cells"]):
             for arch in sorted(expected["cells"][variant]):
-                for img in expected["cells"][variant][arch]:
+                names = (aux or {}).get(variant, {}).get(arch)
+                for k, img in enumerate(expected["cells"][variant][arch]):
                     iid = "L%d" % n
                     n += 1
+                    if names is not None and len(names) == len(expected["cells"][variant][arch]):
+                        # keep the handle the history used (after a restart every cell holds its own object: a handle
+                        # that was filed in several cells stays with the first one)
+                        iid = names[k] if names[k] not in used else "%s@%s/%s" % (names[k], variant, arch)
+                    used.add(iid)
                     m["imgs"][iid] = copy.deepcopy(img)
                     m["cells"].setdefault(variant, {}).setdefault(arch, []).append(iid)
         return m
@@ -681,6 +697,7 @@ class IMMachine(FormatMachine):
 
     def op_restart(self, op):
         s = self.slot(op)
+        self._restart_path = self.path(op)
         r = FormatMachine.op_restart(self, op)
         d = self.durable.get(self.path(op)) or {}
         if r == "restarted-unspec" and d.get("must") == "accept" and d.get("must_prop") == "C09":
